@@ -67,7 +67,9 @@ impl<'a, A: ToSocketAddrs> UdpSendTo<'a, A> {
 
 impl<A: ToSocketAddrs> EventSource for UdpSendTo<'_, A> {
     fn subscribe(&mut self, co: CoroutineImpl) {
-        let io_data = self.io_data;
+        // once the coroutine is stored another thread may resume it and it may drop the
+        // socket we were called through: use the shared event data by value from here
+        let io_data = (*self.io_data).clone();
 
         #[cfg(feature = "io_timeout")]
         if let Some(dur) = self.timeout {
